@@ -553,7 +553,7 @@ func (P *Prog) isStructProviderValue(rv ssa.Value) bool {
 		return false
 	}
 	owner := P.fieldOwner(f)
-	return owner != nil && owner.Obj().Name() == "StructDataProvider" && f.Name() == "value"
+	return owner != nil && owner.Obj().Name() == "StructDataProvider" && P.roleName(f) == "value"
 }
 
 // isCoercedValue: rv = reflect.ValueOf(<result #0 of a coercer-role call>) or
@@ -1008,7 +1008,7 @@ func (P *Prog) structProviderBuiltFromStructs() (bool, string) {
 				return
 			}
 			_, f := fieldVar(st.Addr)
-			if f == nil || f.Name() != "value" {
+			if f == nil || P.roleName(f) != "value" {
 				return
 			}
 			owner := P.fieldOwner(f)
@@ -1059,7 +1059,8 @@ func (P *Prog) sliceCoercerReturnsSlice() (bool, string) {
 		if v == ssa.Value(fn.Params[0]) {
 			// under Kind() == Slice of reflect.TypeOf(data)
 			for _, gd := range guardsOf(b) {
-				if bo, isBO := gd.If.Cond.(*ssa.BinOp); isBO && bo.Op == token.EQL && gd.True {
+				// `Kind() == Slice` taken, or `Kind() != Slice` not taken
+				if bo, isBO := gd.If.Cond.(*ssa.BinOp); isBO && ((bo.Op == token.EQL && gd.True) || (bo.Op == token.NEQ && !gd.True)) {
 					if k, isK := constInt(bo.Y); isK && k == rkSlice {
 						return
 					}
